@@ -139,6 +139,10 @@ func (dm *DMap) deleteKey(key string) error {
 
 	f.Lock()
 	defer f.Unlock()
+	if !dm.isFragmentRegistered(part, f) {
+		// Removed by the janitor between the lookup and the lock. Start over.
+		return dm.deleteKey(key)
+	}
 
 	// Check the HKey before trying to delete it.
 	if !f.storage.Check(hkey) {
